@@ -37,10 +37,21 @@ def gen_items(vseed, tier, n):
         for _ in range(2):
             tables.append({"tables": rng.choice(["LALR", "SLR"]), "ps": rng.random() < 0.4,
                            "pse": rng.random() < 0.4, "ld": rng.choice([None, True, False])})
-        inputs = [pool.gen_input(rng, sc, version=v, p_damage=0.15)[0] for _ in range(3)]
+        inputs = [pool.gen_input(rng, sc, version=v, p_damage=0.25)[0] for _ in range(3)]
         items.append({"family": sc["family"], "text": sc["texts"][v], "recs": sc["recognizers"][v],
                       "tables": tables, "inputs": inputs})
-    return items
+        if len(items) % 5 == 0:
+            # grammars split over files: same-named symbols in different files, import graphs
+            if rng.random() < 0.6:
+                isc = pool.import_samename_scenario(rng)
+                files, inputs = isc["files"], isc["inputs"]
+            else:
+                isc = pool.import_scenario(rng)
+                files = isc["versions"][rng.randrange(len(isc["versions"]))]
+                inputs = isc["probes"][:3]
+            items.append({"family": isc["family"], "files": files, "tables": tables,
+                          "inputs": inputs})
+    return items[:n]
 
 
 def corpus_items():
@@ -184,7 +195,8 @@ def check(tier, vseed, args):
             if isinstance(v, dict) and v.get("nconf") and v["nconf"] != [0, 0])
         samples = []
         for it in items[:2]:
-            samples.append({"family": it["family"], "grammar": it.get("text", it.get("file")),
+            samples.append({"family": it["family"],
+                            "grammar": it.get("text") or it.get("file") or it.get("files"),
                             "tables": it["tables"], "inputs": it.get("inputs")})
         evidence = {
             "property_id": PROP,
